@@ -10,6 +10,7 @@ import (
 	"fmt"
 	"os"
 	"runtime"
+	"strconv"
 	"sync"
 	"sync/atomic"
 	"time"
@@ -54,8 +55,35 @@ func workRound(r *rng, round int) {
 		}
 	}
 	var inits []int
-	for k := 1 + r.intn(3); k > 0; k-- {
-		inits = append(inits, r.intn(nItems))
+	if r.intn(10) != 0 { // one round in ten: Do on an empty work set
+		for k := 1 + r.intn(3); k > 0; k-- {
+			inits = append(inits, r.intn(nItems))
+		}
+	}
+	// item id i is a Go value of mixed dynamic type; distinct ids are distinct under == but share printed forms
+	ptrs := map[int]*pt{}
+	val := func(i int) any {
+		g := i / 7
+		switch i % 7 {
+		case 0:
+			return g
+		case 1:
+			return strconv.Itoa(g)
+		case 2:
+			return int64(g)
+		case 3:
+			return [2]int{g, g}
+		case 4:
+			return fmt.Sprintf("[%d %d]", g, g)
+		}
+		return ptrs[i]
+	}
+	ids := map[any]int{}
+	for i := 0; i < nItems; i++ {
+		if k := i % 7; k >= 5 {
+			ptrs[i] = &pt{g: i / 7}
+		}
+		ids[val(i)] = i
 	}
 	reach := map[int]bool{}
 	var dfs func(i int)
@@ -75,11 +103,14 @@ func workRound(r *rng, round int) {
 	var active, maxActive int32
 	var w par.Work
 	for _, i := range inits {
-		w.Add(i)
+		w.Add(val(i))
 	}
 	withDeadline(fmt.Sprintf("Work.Do round %d (n=%d, %d items)", round, n, nItems), 25*time.Second, func() {
 		w.Do(n, func(item any) {
-			i := item.(int)
+			i, known := ids[item]
+			if !known {
+				fail("exactly-once", fmt.Sprintf("round %d: f called with %#v, which was never added", round, item))
+			}
 			a := atomic.AddInt32(&active, 1)
 			for {
 				m := atomic.LoadInt32(&maxActive)
@@ -92,7 +123,7 @@ func workRound(r *rng, round int) {
 				if r := c % 3; r == 0 {
 					runtime.Gosched()
 				}
-				w.Add(c)
+				w.Add(val(c))
 			}
 			atomic.AddInt32(&ended[i], 1)
 			atomic.AddInt32(&active, -1)
@@ -116,6 +147,8 @@ func workRound(r *rng, round int) {
 }
 
 type boxed struct{ k, gen int }
+
+type pt struct{ g int }
 
 func cacheRound(r *rng, round int) {
 	nKeys := 1 + r.intn(4)
